@@ -64,11 +64,13 @@ mkdir -p "$HERE/replays"
 TOTAL=0; viol=0; other=0
 for TARGET in $TARGETS; do
   BIN="$HERE/fuzz/target/x86_64-unknown-linux-gnu/release/$TARGET"
+  # server_start runs a full ServerLogin::start per input (about 10 ms on the P-521 suites)
+  TRUNS="$RUNS"; [ "$TARGET" = "server_start" ] && TRUNS=$((RUNS / 6))
   pids=""
   for i in $(seq 1 "$PROCS"); do
     mkdir -p "$WORK/$TARGET/c$i" "$WORK/$TARGET/a$i"
     cp "$HERE/corpus/$TARGET"/* "$WORK/$TARGET/c$i/" 2>/dev/null
-    ( "$BIN" "$WORK/$TARGET/c$i" -runs="$RUNS" -seed=$((SEED * 100 + i)) -max_len=1024 -len_control=0 -timeout=20 \
+    ( "$BIN" "$WORK/$TARGET/c$i" -runs="$TRUNS" -seed=$((SEED * 100 + i)) -max_len=1024 -len_control=0 -timeout=20 \
         -artifact_prefix="$WORK/$TARGET/a$i/" -print_final_stats=1 >"$WORK/$TARGET/log$i" 2>&1 ) &
     pids="$pids $!"
   done
